@@ -350,8 +350,10 @@ theorem initConsoleUser_users (S : Scripts) (rh : HookFn) (hrh : HookOK rh) (w :
   · rename_i hn; rw [hn] at hi; simp at hi
   · exact ((afterConnect_cstep S rh hrh _) i1).2.alloc hu
 
-theorem startup_good (S : Scripts) (rh : HookFn) (hrh : HookOK rh) (w : W) (f : Fresh w) :
-    GT w (startup S rh w) := by
+/-- backend() up to the loop, seen from the moment `start` has been logged: the state is good and everything else the
+    start-up steps log comes AFTER that event -/
+theorem startup_good_start (S : Scripts) (rh : HookFn) (hrh : HookOK rh) (w : W) (f : Fresh w) :
+    GT (emit w .start) (startup S rh w) := by
   unfold startup
   simp only []
   -- save_context; the initial tick
@@ -365,12 +367,11 @@ theorem startup_good (S : Scripts) (rh : HookFn) (hrh : HookOK rh) (w : W) (f : 
     | none => rfl
     | some l => rw [h] at this; simp at this
   have hm1 : (callHeartBeat rh { (emit w .start) with ctxDepth := 1 }).1.mode = w.mode := r1.mode
-  have t1 : TrExt w (callHeartBeat rh { (emit w .start) with ctxDepth := 1 }).1 :=
-    TrExt.trans (TrExt.one (e := .start) rfl rfl) r1.tr
+  have t1 : TrExt (emit w .start) (callHeartBeat rh { (emit w .start) with ctxDepth := 1 }).1 := r1.tr
   -- whether or not the initial tick left through the recovery point
   have g2 : ∀ v : W, (v = recover (callHeartBeat rh { (emit w .start) with ctxDepth := 1 }).1 ∨
       v = (callHeartBeat rh { (emit w .start) with ctxDepth := 1 }).1) →
-      Inv v ∧ v.users = none ∧ v.ctxDepth = 1 ∧ TrExt w v := by
+      Inv v ∧ v.users = none ∧ v.ctxDepth = 1 ∧ TrExt (emit w .start) v := by
     intro v hv
     cases hv with
     | inl e => rw [e]; exact ⟨i1.ctx_irrel 1, hu1, rfl, t1.trans (TrExt.of_eq rfl)⟩
@@ -394,6 +395,11 @@ theorem startup_good (S : Scripts) (rh : HookFn) (hrh : HookOK rh) (w : W) (f : 
     · exact ⟨⟨i3, fun _ => u3, by rw [r3.ctx]; exact cv⟩, tv.trans r3.tr⟩
   · rename_i hnet
     exact ⟨⟨iv, fun hm => absurd hm hnet, cv⟩, tv⟩
+
+theorem startup_good (S : Scripts) (rh : HookFn) (hrh : HookOK rh) (w : W) (f : Fresh w) :
+    GT w (startup S rh w) :=
+  let g := startup_good_start S rh hrh w f
+  ⟨g.1, (TrExt.one (e := .start) rfl rfl).trans g.2⟩
 
 theorem run_gt (S : Scripts) (w0 : W) (h : List (List Action)) (f : Fresh w0) :
     ∃ m, GTC w0 (run S w0 h) (List.range' 1 m) := by
